@@ -30,8 +30,8 @@ pub open spec fn g_init<I, O>() -> G<I, O> { G { dn: dn_init(), up: up_init(), f
 #[verifier::external_body] pub fn fresh_heap() -> (h: Heap) { unimplemented!() }
 
 //@include passthrough_common.rs TP="I, O" G="G<I, O>" HEAP=Heap
-//@invpart data @C07 map: output is the image of the input under f, each f(x) computed once
-//@invpart pull @C14 demand conservation: every sink Pull is carried upstream
+//@invpart data @C07,C06 map: output is the image of the input under f, each f(x) computed once
+//@invpart pull @C14,C06 demand conservation: every sink Pull is carried upstream
 pub open spec fn inv_data<I, O>(h: Heap, g: G<I, O>, c: Cap) -> bool {
     &&& g.dn.data =~= g.up.data.map_values(|x: I| user_f::<I, O>(x))
     &&& g.f_calls == g.up.data.len()
